@@ -2,9 +2,11 @@ package engx
 
 import (
 	"context"
+	"errors"
 	"fmt"
 	"math/big"
 	"sort"
+	"strings"
 	"sync"
 	"time"
 
@@ -89,6 +91,13 @@ type thr struct {
 	cancel   context.CancelFunc
 	cancelled bool
 	floating bool // resumed while (possibly) blocked outside the scheduler's control: it reports back by itself
+	// probed: the thread was parked at "wait" with its entry not yet persisted when the scheduler let it run as a PROBE
+	// (does the code block on the persistence signal although the context is done?). The unchanged code blocks: the
+	// thread floats until the batch is written and then arrives at "done" by itself. For the schedule (and the model)
+	// it is still parked at "wait": the probe is not a choice; the arrival is held back until resume(t) is chosen.
+	probed bool
+	waitID string // the log id it waits for (kv of the "wait" point)
+	selected string // which branch of the lock select it took last: lock.select.done | lock.select.acquired
 }
 
 type note struct {
@@ -101,8 +110,11 @@ type note struct {
 }
 
 type Choice struct {
-	Kind string `json:"kind"` // start resume persist_ok persist_fail crash
+	Kind string `json:"kind"` // start resume cancel persist_ok persist_fail persist_fail_ctx crash
 	Tid  int    `json:"tid"`
+	// Via: filled by Do for a resume out of "lock.enqueued": "cancelled" when the select took the ctx.Done() branch
+	// (with the intent granted AND the context done the Go runtime picks either branch)
+	Via string `json:"via,omitempty"`
 }
 
 func (c Choice) String() string { return fmt.Sprintf("%s(%d)", c.Kind, c.Tid) }
@@ -178,6 +190,12 @@ func (s *Sched) yield(ctx context.Context, point string, kv ...any) {
 	if point == "lock.grant" {
 		s.mu.Lock()
 		s.granted[intent] = true
+		s.mu.Unlock()
+		return
+	}
+	if point == "lock.select.done" || point == "lock.select.acquired" {
+		s.mu.Lock()
+		s.threads[tid].selected = point
 		s.mu.Unlock()
 		return
 	}
@@ -380,6 +398,10 @@ func classify(err error) string {
 	if msg == "already taken" {
 		return "ik-busy"
 	}
+	// DefaultLocker.Lock gave up because the request's context was done (exec wraps the locker's error)
+	if errors.Is(err, context.Canceled) && strings.HasPrefix(msg, "locking accounts for tx processing: locking accounts:") {
+		return "lock-cancelled"
+	}
 	return "other:" + firstLine(msg)
 }
 func contains(s, sub string) bool {
@@ -419,15 +441,21 @@ func (s *Sched) Enabled() []Choice {
 			continue
 		}
 		if !t.started {
-			cs = append(cs, Choice{"start", t.id})
+			cs = append(cs, Choice{Kind: "start", Tid: t.id})
 			continue
 		}
 		alive = true
 		if t.floating {
 			continue
 		}
+		if t.probed {
+			// it has arrived past its wait after the batch was written and is held there: for the schedule it is
+			// parked at "wait" with its entry persisted
+			cs = append(cs, Choice{Kind: "resume", Tid: t.id})
+			continue
+		}
 		if s.AllowCancel && !t.cancelled && s.Cancels < s.MaxCancels {
-			cs = append(cs, Choice{"cancel", t.id})
+			cs = append(cs, Choice{Kind: "cancel", Tid: t.id})
 		}
 		switch t.parkedAt {
 		case "lock.enqueued":
@@ -435,34 +463,34 @@ func (s *Sched) Enabled() []Choice {
 			g := s.granted[t.intent]
 			s.mu.Unlock()
 			if g || t.cancelled {
-				cs = append(cs, Choice{"resume", t.id})
+				cs = append(cs, Choice{Kind: "resume", Tid: t.id})
 			}
 		case "append.enter":
 			// the append critical section is a mutex of the code under test: probe it instead of blocking
 			if !s.cmd.VerifAppendLocked() {
-				cs = append(cs, Choice{"resume", t.id})
+				cs = append(cs, Choice{Kind: "resume", Tid: t.id})
 			}
 		case "wait":
-			// a cancelled request may be resumed before its entry is persisted: the unchanged code blocks on the
-			// persistence signal all the same (the thread then "floats" until it reports back by itself)
-			if t.kv["dry"] == "true" || s.persisted(t.kv["id"]) || t.cancelled {
-				cs = append(cs, Choice{"resume", t.id})
+			// enabled when the persistence signal has been given. (A cancelled request parked here with its entry
+			// not persisted is PROBED outside the choice list, see probe: in the unchanged code it cannot proceed.)
+			if t.kv["dry"] == "true" || s.persisted(t.kv["id"]) {
+				cs = append(cs, Choice{Kind: "resume", Tid: t.id})
 			}
 		default:
-			cs = append(cs, Choice{"resume", t.id})
+			cs = append(cs, Choice{Kind: "resume", Tid: t.id})
 		}
 	}
 	if s.workerParked {
-		cs = append(cs, Choice{"persist_ok", -1})
+		cs = append(cs, Choice{Kind: "persist_ok", Tid: -1})
 		if s.AllowFail && s.Crashes < s.MaxCrashes {
-			cs = append(cs, Choice{"persist_fail", -1})
+			cs = append(cs, Choice{Kind: "persist_fail", Tid: -1})
 		}
 		if s.AllowFailCtx && s.Crashes < s.MaxCrashes {
-			cs = append(cs, Choice{"persist_fail_ctx", -1})
+			cs = append(cs, Choice{Kind: "persist_fail_ctx", Tid: -1})
 		}
 	}
 	if s.AllowCrash && s.Crashes < s.MaxCrashes && (alive || s.workerParked) {
-		cs = append(cs, Choice{"crash", -1})
+		cs = append(cs, Choice{Kind: "crash", Tid: -1})
 	}
 	sort.SliceStable(cs, func(i, j int) bool { return false })
 	return cs
@@ -476,12 +504,25 @@ func (s *Sched) record(n note) {
 
 // settle waits until every expected arrival happened: the acting thread (if any) parks or finishes, and
 // the worker reaches InsertLogs whenever logs are pending and it is free.
-func (s *Sched) settle(expectTid int) {
+func (s *Sched) settle(expectTid int) { s.settleWithin(expectTid, 5*time.Second) }
+
+// probeGrace: how long a probed thread is given to show that it does NOT block on the persistence signal
+const probeGrace = 15 * time.Millisecond
+
+// probe lets a thread parked at "wait", whose entry is not persisted, run: the unchanged code blocks on the
+// persistence signal whatever happened to the request's context (the thread then floats until the batch is written
+// and reports back by itself). This is not a choice of the schedule. A thread that does get past its wait without
+// persistence ("escapes") is from then on scheduled from wherever it parks: the oracles judge what it does, and the
+// model (which has it parked at the wait) refuses its steps.
+func (s *Sched) probe(t *thr) {
+	t.probed, t.waitID = true, t.kv["id"]
+	s.Trace = append(s.Trace, Event{Tid: t.id, Point: "probe"})
+	t.resume <- struct{}{}
+	s.settleWithin(t.id, probeGrace)
+}
+
+func (s *Sched) settleWithin(expectTid int, grace time.Duration) {
 	waitingThread := expectTid >= 0
-	grace := 5 * time.Second
-	if expectTid >= 0 && s.threads[expectTid].cancelled && s.threads[expectTid].parkedAt == "wait" {
-		grace = 60 * time.Millisecond // it may legitimately block on the persistence signal
-	}
 	for {
 		needWorker := !s.workerParked && s.pending > 0
 		if !waitingThread && !needWorker {
@@ -530,8 +571,13 @@ func (s *Sched) absorb(n note, waitingThread *bool, expectTid int) {
 	}
 	t := s.threads[n.tid]
 	t.floating = false
+	if t.probed && !s.persisted(t.waitID) {
+		t.probed = false // escaped: past its wait although nothing was persisted
+		s.Trace = append(s.Trace, Event{Tid: t.id, Point: "probe.escaped"})
+	}
 	if n.finish {
 		t.finished = true
+		t.probed = false
 	} else {
 		t.parkedAt, t.kv = n.point, n.kv
 		if n.point == "lock.enqueued" {
@@ -546,8 +592,20 @@ func (s *Sched) absorb(n note, waitingThread *bool, expectTid int) {
 	}
 }
 
-// Do performs one choice and waits for quiescence.
-func (s *Sched) Do(c Choice) {
+// Do performs one choice and waits for quiescence; it returns the choice as performed (Via filled in).
+func (s *Sched) Do(c Choice) Choice {
+	c = s.do(c)
+	// probes (not choices): a cancelled request parked at its wait before its entry is persisted
+	for _, t := range s.threads {
+		if s.Fault == "" && t.started && !t.finished && t.gen == s.Gen && t.cancelled && !t.floating && !t.probed &&
+			t.parkedAt == "wait" && t.kv["dry"] != "true" && !s.persisted(t.kv["id"]) {
+			s.probe(t)
+		}
+	}
+	return c
+}
+
+func (s *Sched) do(c Choice) Choice {
 	s.Trace = append(s.Trace, Event{Tid: c.Tid, Point: "choice:" + c.Kind})
 	switch c.Kind {
 	case "start":
@@ -566,8 +624,22 @@ func (s *Sched) Do(c Choice) {
 		s.settle(t.id)
 	case "resume":
 		t := s.threads[c.Tid]
+		if t.probed {
+			// the thread went through its wait by itself once the batch was written and is parked behind it
+			t.probed = false
+			break
+		}
+		enq := t.parkedAt == "lock.enqueued"
+		s.mu.Lock()
+		t.selected = ""
+		s.mu.Unlock()
 		t.resume <- struct{}{}
 		s.settle(t.id)
+		s.mu.Lock()
+		if enq && t.selected == "lock.select.done" {
+			c.Via = "cancelled"
+		}
+		s.mu.Unlock()
 	case "persist_ok":
 		s.workerParked = false
 		s.workerResume <- 1
@@ -581,13 +653,13 @@ func (s *Sched) Do(c Choice) {
 			}
 			if time.Now().After(deadline) {
 				s.Fault = "timeout waiting for InsertLogs to write"
-				return
+				return c
 			}
 			time.Sleep(20 * time.Microsecond)
 		}
 		s.settle(-1)
 		for _, t := range s.threads {
-			if t.floating && t.gen == s.Gen && s.persisted(t.kv["id"]) {
+			if t.floating && t.gen == s.Gen && !t.finished && s.persisted(t.waitID) {
 				s.settle(t.id)
 			}
 		}
@@ -617,11 +689,9 @@ func (s *Sched) Do(c Choice) {
 			}
 		}
 		for _, t := range s.threads {
-			if t.started && !t.finished && t.gen == s.Gen && t.parkedAt == "wait" && !t.floating {
+			if t.started && !t.finished && t.gen == s.Gen && t.parkedAt == "wait" && !t.floating && !t.probed {
 				// probe: does the request get past its wait although nothing was persisted?
-				t.cancelled = true // reuse the tolerant resume
-				t.resume <- struct{}{}
-				s.settle(t.id)
+				s.probe(t)
 				for !t.finished && !t.floating && s.Fault == "" {
 					t.resume <- struct{}{}
 					s.settle(t.id)
@@ -632,6 +702,7 @@ func (s *Sched) Do(c Choice) {
 	case "crash":
 		s.crash()
 	}
+	return c
 }
 
 // crash abandons the current generation (its goroutines stay parked for ever, unanswered) and boots a new one.
